@@ -144,6 +144,11 @@ both('lat_neg_expr', ['lattice l(i32, i32)', 'lattice d(i32, ascent::Dual<i32>)'
       'miss(x) <-- e(x, v), !d(x, ascent::Dual(*v))',
       'cnt(x, c) <-- e(x, v), agg c = count() in l(x, *v + 1)',
       'near(x) <-- e(x, _), agg c = count() in d(_, ascent::Dual(2)), if c > 0'], tags=['lattice', 'neg', 'agg', 'lat_neg'])
+# the product order as a lattice column (tuple and array carrier)
+both('lat_product', ['relation s(i32, i32, i32)', 'relation e(i32, i32)', 'lattice p(i32, ascent::lattice::Product<(i32, i32)>)', 'lattice q(i32, ascent::lattice::Product<[i32; 2]>)', 'relation big(i32)'],
+     ['p(x, ascent::lattice::Product((*a, *b))) <-- s(x, a, b)', 'p(y, *v) <-- e(x, y), p(x, v)',
+      'q(x, ascent::lattice::Product([*a, *b])) <-- s(x, a, b)', 'q(y, *v) <-- e(x, y), q(x, v)',
+      'big(x) <-- p(x, v), if v.0 .0 > 3'], tags=['lattice'], crate='corpus_run2')
 both('lat_valkey', ['relation inp(i32, i32)', 'relation step(i32)', 'lattice best(i32, i32)', 'relation probev(i32)', 'relation byval(i32, i32)'],
      ['best(x, *y) <-- inp(x, y)', 'best(x, v + 1) <-- best(x, v), step(v)', 'byval(x, v) <-- probev(v), best(x, v)'], tags=['lattice', 'lat_valkey'])
 P('lat_agg', ['relation inp(i32, i32)', 'lattice best(i32, i32)', 'relation n(usize)', 'relation top(i32)'],
@@ -413,16 +418,21 @@ both('t_macf_core', MCS,
       'a(x) <-- b(x, x), p(x, x1), p(x1, x1)',
       'a(x) <-- b(x, x), k(x1), a(x2)'], pre=PT_PRE, tags=['twin'])
 # `expr` parameters stand for one operand
-MACX = ['macro dbl($x: expr, $r: ident) { let $r = $x * 2 }',
+MACX = ['macro sq($x: expr, $r: ident) { let $r = $x.pow(2) }',
+        'macro dbl($x: expr, $r: ident) { let $r = $x * 2 }',
         'macro neg1($x: expr, $r: ident) { let $r = 0 - $x }',
         'macro far($x: expr) { edge($x, t), if *t > $x * 2 }']
 both('t_macx_sugar', MC, [], body=['pub struct P;'] + [d + ';' for d in MC] + MACX + [
+     'r(x, d) <-- k(x), sq!(-x, d);',
+     'r(x, d) <-- k(x), sq!(-x + 1, d), sq!(*x, d2), if d2 > d;',
      'r(x, d) <-- k(x), dbl!(x + 1, d);',
      'r(x, d) <-- k(x), neg1!(x - 3, d);',
      'a(x) <-- k(x), far!(x + 1);',
      'a(x) <-- k(x), far!(x);'], tags=['twin'], twin=('t_macx_core', 'L'))
 both('t_macx_core', MC,
-     ['r(x, d) <-- k(x), let d = (x + 1) * 2',
+     ['r(x, d) <-- k(x), let d = (-x).pow(2)',
+      'r(x, d) <-- k(x), let d = (-x + 1).pow(2), let d2 = (*x).pow(2), if d2 > d',
+      'r(x, d) <-- k(x), let d = (x + 1) * 2',
       'r(x, d) <-- k(x), let d = 0 - (x - 3)',
       'a(x) <-- k(x), edge((x + 1), t1), if *t1 > (x + 1) * 2',
       'a(x) <-- k(x), edge(x, t1), if *t1 > x * 2'], tags=['twin'])
@@ -525,6 +535,12 @@ P('init_order_run', ['relation zeta(i32) = mk(v, 1)', 'relation alpha(i32) = mk(
   pre='   pub fn mk(v: &[i32], k: i32) -> Vec<(i32,)> { v.iter().map(|x| (x * k,)).collect() }', tags=['run', 'init_order'])
 P('init_order', ['relation zeta(i32) = mk(1)', 'relation alpha(i32) = mk(2)', 'relation mid(i32) = mk(3)', 'relation out(i32)'],
   ['out(x) <-- zeta(x), alpha(x), mid(x)'], pre='   pub fn mk(k: i32) -> Vec<(i32,)> { vec![(k,), (k + 1,)] }', tags=['init_order'])
+# an initialised relation that is a rule head and is read only inside its own recursive stratum (no stratum takes it as a pure input)
+P('init_rec_run', ['relation edge(i32, i32)', 'relation path(i32, i32) = known.to_vec()'],
+  ['edge(*a, *b) <-- for (a, b) in es.iter()', 'path(x, z) <-- path(x, y), edge(y, z)'], macro='ascent_run',
+  params='es: &[(i32, i32)], known: &[(i32, i32)]', tags=['run', 'init_rec'])
+P('init_rec', ['relation edge(i32, i32)', 'relation path(i32, i32) = vec![(1, 2)]'],
+  ['path(x, z) <-- path(x, y), edge(y, z)'], tags=['init_rec'])
 # captured locals named like locals of the generated code
 P('run_names', ['relation a(i32)', 'relation b(i32)', 'relation c(i32)', 'relation out(i32)'],
   ['a(*v) <-- for v in input.iter()', 'b(x) <-- a(x)', 'c(x) <-- a(x)', 'out(x) <-- a(x), b(x), c(x), if any_rel_empty', 'out(x + cl1_val) <-- a(x), b(x)'],
